@@ -382,7 +382,7 @@ pub fn run(ctx: &Ctx) {
         }
         ctx.note("cross_process_matrix_runs", serde_json::json!(4));
     }
-    ctx.random("random_pairs", ctx.pick(500_000, 4_000_000), || {
+    ctx.random("random_pairs", ctx.pick(500_000, 40_000_000), || {
         (gen::value_rv(3, 8), gen::value_rv(3, 8), any::<bool>()).prop_map(|(a, b, same)| if same { RandPair { a: a.clone(), b: reversed(&a) } } else { RandPair { a, b } })
     }, rand_oracle);
 }
